@@ -395,6 +395,8 @@ func NewBSID(v []byte) (*BSID, error) {
 	var bsid *BSID
 	switch len(v) {
 	case 0:
+		// no BSID: an empty value, as the decoder produces for it
+		bsid = &BSID{Value: make([]byte, 0)}
 	case 4:
 		t := binary.BigEndian.Uint32(v)
 		t <<= 12
